@@ -105,6 +105,14 @@ CHECKS = {
             'topics and payloads are bytes; message carries the KafkaEndpoint the balancer would stamp',
             'Hypothesis + independent Kafka v0 parser/encoder; CRC/size/correlation oracle',
             '5/C15', 'simnet'),
+    'C16': ('exploration',
+            'Three generated op-list machines: SingletonPoolSink over harness connections (<= 1 live connection, no request on a '
+            'dead connection, one fresh connection per failure / full close, nothing stuck), RefCountedSink (underlying Open on '
+            '0->1 only, Close on 1->0 only, surplus closes ignored, same pending open result for all holders) and '
+            'SharedSinkProvider (identical sink per live key, falsy key never shared).',
+            'connections open successfully; requests racing the last Close are promised nothing; CPython refcounting empties the weak cache',
+            'Hypothesis op-list state machines for singleton pool, ref-counted sink, shared provider',
+            '5/C16', 'simkernel'),
     'C17': ('exploration',
             'All outcome / pre-completion / completion-order assignments of WhenAll and WhenAny up to n=4 (quick) or n=5 '
             '(thorough), all Unwrap chains up to depth 3/4 and all ContinueWith / Map variants are enumerated completely '
